@@ -7,7 +7,7 @@ for r in A B C D E F; do
     out=$(VERIF_FAST=1 ./check $p --seed 1 2>&1 | tail -2)
     if echo "$out" | grep -q VIOLATION; then echo "ref$r $p: $out" | cut -c1-400; cp replays/${p}_unproven_1.json work/ref${r}_${p}.json 2>/dev/null; cp replays/${p}_oracle_1.json work/ref${r}_${p}_o.json 2>/dev/null; fi
   done
-  git -C /repo checkout -- .
+  git -C /repo checkout -- . && git -C /repo clean -fdq src
   echo "ref$r done"
 done
 git -C /repo status --short
